@@ -1,7 +1,7 @@
 (* C13 — fail-stop after a journal I/O failure.
    FULL STATEMENT decided by fault enumeration on the real code (py/props/c13.py).  The model-level part:
    once the poison flag is set, no write of any kind is acknowledged and the state does not change. *)
-From FJ Require Import Bytes Codec Reader Lsm Tracker Db Prog RecoverP.
+From FJ Require Import Bytes Codec Reader Lsm Tracker Db Prog RecoverP DbOrderP PoisonP.
 
 Theorem C13_poison_sticky_partial : forall cfg d,
   d_poisoned d = true -> d_mode d = MPlain ->
@@ -13,4 +13,23 @@ Theorem C13_poison_sticky_partial : forall cfg d,
   (forall items, fst (db_step cfg d (OBatch items)) = d).
 Proof. exact poisoned_refuses_writes. Qed.
 
+(* over the operations of the database model: no operation of a running database clears the poison flag ... *)
+Theorem C13_no_operation_clears_the_flag : forall (d : db) (o : wop), d_poisoned (wstep d o) = d_poisoned d.
+Proof. exact poison_sticky. Qed.
+
+(* ... so once it is set, whatever operations follow (writes, batches, maintenance, ingestion, ...), every later insert / remove
+   is refused and leaves the whole state — journal included — exactly as it was; the same for clear *)
+Theorem C13_poisoned_forever : forall (d : db) (ops : list wop), d_poisoned d = true ->
+  let d' := fold_left wstep ops d in
+  forall id k v vt mvt, fst (write_one d' id k v vt mvt) = d' /\ snd (write_one d' id k v vt mvt) <> ObOk.
+Proof. exact poisoned_forever. Qed.
+
+Theorem C13_poisoned_refuses_writes_and_clears : forall (d : db), d_poisoned d = true ->
+  (forall id k v vt mvt, fst (write_one d id k v vt mvt) = d /\ snd (write_one d id k v vt mvt) <> ObOk) /\
+  (forall id, fst (do_clear d id) = d /\ snd (do_clear d id) <> ObOk).
+Proof. exact poisoned_writes_refused. Qed.
+
+Print Assumptions C13_no_operation_clears_the_flag.
+Print Assumptions C13_poisoned_forever.
+Print Assumptions C13_poisoned_refuses_writes_and_clears.
 Print Assumptions C13_poison_sticky_partial.
